@@ -282,6 +282,9 @@ def run(ctx):
                     ctx.counterexample('FORCEWIN: the drive part of %r does not match its case variant %r under %s' % (s, sw, corr.flag_names(fv)),
                                        {'pattern': s, 'name': sw, 'flags': corr.flag_names(fv)})
     ctx.counted('escape / is_magic behaviour', evals, len(nontriv), [{'string': 'a*[b]'}, {'string': '//srv/a|b/x'}])
+    from props import globcommon as _gc9
+    nfr_ = _gc9.fringe_names(ctx)
+    ctx.counted('escaped entries and literal names on a tree of non-ASCII and case-twin names', nfr_, nfr_ // 2, [{'entry': '\u0130stanbul.txt', 'flags': 'IGNORECASE'}])
     return ctx.finish(RULE)
 
 
